@@ -18,6 +18,7 @@ ASSUMPTIONS = ["the structural view (vf.ref.view) reads instance attributes only
 REQUIRED_EVENTS = ["pairs_unequal_expected", "pairs_equal_expected", "child_index_perturbations"]
 SHARDED = True
 
+QUICK_SHARDS = 4
 SIBLING = {
     "pingRequest": ["pingReply"], "pingReply": ["pingRequest"],
     "delProperty": ["message"],
@@ -243,7 +244,7 @@ def one_case(ctx, case):
 
 
 def run(ctx):
-    n = 3000 if not ctx.thorough else 400000
+    n = 12000 if not ctx.thorough else 400000
     tags = G.ALL_TAGS
     for i in range(n):
         if not ctx.mine(i):
